@@ -482,6 +482,6 @@ def run(ctx: Ctx):
     q = ctx.tier == "quick"
     parts = []
     parts.append(given_part(ctx, "wide", wide_cases(), check_wide, 2 if q else 8, batch=2))
-    parts.append(given_part(ctx, "faults", cases(), check_faults, per_shard(ctx, 320 if q else 4800), batch=10))
+    parts.append(given_part(ctx, "faults", cases(), check_faults, per_shard(ctx, 260 if q else 4800), batch=10))
     ctx.exhaustive_subdomains["complete fault space (kind x chunk x position, iterator failure before every chunk) per generated stream"] = 1
     run_parts(ctx, parts)
